@@ -68,8 +68,6 @@
 /* the cache is either still UNDEFINED or holds feature bits only */
 #define VERIF_FEATURE_BITS (SSE2 | SSSE3 | SSE41 | AVX | AVX2 | AVX512F | AVX512VL)
 #define VERIF_GCPU_OK (g_cpu_features == UNDEFINED || (g_cpu_features & ~VERIF_FEATURE_BITS) == 0)
-/* harnesses start from an arbitrary cache state, not only from the initial UNDEFINED */
-#define VERIF_HAVOC_GLOBALS() do { int verif_nd_; g_cpu_features = verif_nd_; } while (0)
 
 /* vacuity guard used by the self-test only (-DVERIF_SANITY): the end of every harness must
  * be reachable, i.e. this assertion must FAIL; in normal runs the macro is empty */
@@ -98,6 +96,19 @@ VERIF_OBS(g_cpu_features, int)
 #define OBS_OUTPUT(o)                                                                    \
   (verif_obs_block_len((o)->block_len) && verif_obs_out_flags((o)->flags) &&            \
    verif_obs_out_counter((o)->counter))
+
+/* first statement of every harness: start from an arbitrary feature-cache state (not only
+ * the initial UNDEFINED), and reference the observers so that the backend's
+ * `goto-instrument --drop-unused-functions` pre-pass keeps them */
+#define VERIF_PROLOGUE()                                                                 \
+  do {                                                                                   \
+    int verif_nd_;                                                                       \
+    g_cpu_features = verif_nd_;                                                          \
+    (void)(verif_obs_buf_len(0) && verif_obs_blocks_compressed(0) &&                     \
+           verif_obs_chunk_counter(0) && verif_obs_chunk_flags(0) &&                     \
+           verif_obs_cv_stack_len(0) && verif_obs_block_len(0) && verif_obs_out_flags(0) && \
+           verif_obs_out_counter(0) && verif_obs_g_cpu_features(0));                     \
+  } while (0)
 
 /* ---- ghost state for blake3_hasher_init_derive_key (the C string and its length) --- */
 static const char *verif_ghost_str;
